@@ -189,6 +189,9 @@ STRUCT = {
     # unquoted values are outside the tag grammar (malformed tag = text); a line break behind one / between '=' and the quote does not rescue the tag
     'malformed-unquoted-value-then-line-break': ["A\n", ('x', "t owner=team-a\nto='2001-01-01 00:00:00'"), "\nq\n", C('t'), "\n", H(1, 'ws'), ('x', "m ticket=1234\nname='x'"), "r", C('m'), "\n",
                                                  ('x', "t to=\n'2001-01-01 00:00:00'"), "s", C('t'), "\nB", H(1), "\n"],
+    # two touching removals, then an unwrapped block, then kept lines with deeper indentation, then one more removal
+    'touching-then-unwrap-then-removal': ["A ", O('t', RT), "x", C('t'), O('m', RX), "y", C('m'), "\n", O('m', RX + ' unwrap-block'), "\n{\n  k;\n}\n", C('m'), "\nconst items = [\n    first,\n", H(1, 'ind'),
+                                          "    second,\n  ];\n", O('t', RT), "\nz\n", C('t'), "\nB", H(1), "\n"],
     'unwrap-adjacent-lines': [H(1), "A ", O('m', RX + ' unwrap-block'), H(1, 'ind'), "\n", H(1, 'ind'), C('m'), " B", H(1)],
 }
 
@@ -340,7 +343,7 @@ def struct_jobs(prop, tier, seed, names=None, budget=None, max_active=None, limi
 # Every structural template can be bent systematically into the corner shapes that hand-written cases tend to miss: the document
 # ends with the last tag / starts with the first tag, the literal text is multi-byte, everything sits inside an element that removes
 # nothing on its own account, every tag carries quoted values holding the other quote character, lines end in CR LF.
-_MB = str.maketrans({'q': '語', 'k': 'é', 'x': 'ж', 'y': 'ü', 'A': 'Ä', 'B': 'ß', 'a': 'à', 'b': 'þ', 'c': 'ç', 'o': 'ö', 'f': 'ƒ', 'p': 'π', 'r': 'я', 'z': 'ž', 'j': 'ĳ'})
+_MB = str.maketrans({'q': '語', 'k': 'é', 'x': 'ж', 'y': 'ü', 'A': 'İ', 'B': 'ẞ', 'K': '\u212a', 'a': 'à', 'b': 'þ', 'c': 'ç', 'o': 'ö', 'f': 'ƒ', 'p': 'π', 'r': 'я', 'z': 'ž', 'j': 'ĳ'})
 
 
 def _is_tag(p_):
@@ -671,6 +674,9 @@ def c11_jobs(tier, seed):
         jobs.append(dict(harness='c11_unwrap', label=f'unwrap k={k} behind crossing elements, inside a pending element', params=dict(k=k, prelude=1, wrap=[('t', PT)], holes=dict(b0_i=2))))
         jobs.append(dict(harness='c11_unwrap', label=f'unwrap k={k + 1} wrapper lines end in four free bytes', params=dict(k=k + 1, holes={'b0_t': 4})))
         jobs.append(dict(harness='c11_unwrap', label=f'unwrap k={k + 1} closing wrapper line ends in four free bytes', params=dict(k=k + 1, holes={f'b{k}_t': 4})))
+    for hs in ({}, dict(b0_i=1), dict(tag_i=1, ctag_i=1)):   # exactly one line between the tags, and that line is empty / blank: untouched
+        jobs.append(dict(harness='c11_unwrap', label=f'unwrap k=1 the only line between the tags is blank holes={hs}', params=dict(k=1, body={'0': 'blank'}, holes=hs)))
+        jobs.append(dict(harness='c11_unwrap', label=f'unwrap k=1 the only line between the tags is blank, first line, holes={hs}', params=dict(k=1, pre=0, body={'0': 'blank'}, holes=hs)))
     for k in (2, 3):   # a byte order mark in front of the document; the flag written with a value
         jobs.append(dict(harness='c11_unwrap', label=f'unwrap k={k} behind a byte order mark', params=dict(k=k, bom=1, holes=dict(tag_i=1, b0_i=2))))
         for av in ("unwrap-block='true'", 'unwrap-block=""'):
@@ -1059,7 +1065,7 @@ def c13_doc(p):
     for _ in range(int(p.get('parent', 0))):   # parents that remove nothing on their own account (pending by default), each tag on its own line
         tpl += [O('m', p.get('parent_attrs', PN)), "\n"]
     if not p.get('first'):   # (first=1: the removed block begins on the first line of the file)
-        tpl += [g('a_i'), g('a_t', 'nb'), "" if p.get('pure') else "A", g('a_e'), "\n"]
+        tpl += [p.get('a_fix', ''), g('a_i'), g('a_t', 'nb'), "" if p.get('pure') else "A", g('a_e'), "\n"]
     for i in range(p['b']):
         tpl += [g(f'bl{i}'), "\n"]
     mt, ma = p.get('main', ('m', RX))
@@ -1078,7 +1084,7 @@ def c13_doc(p):
         tpl += [g('tag2_i'), O('t', RT), "\n", "y\n", g('ctag2_i'), C('t'), "\n"]
         for i in range(p.get('a2', 0)):
             tpl += [g(f'a2l{i}'), "\n"]
-    tpl += [g('z_i'), "" if p.get('pure') else "B", g('z_t', 'nb')]
+    tpl += [p.get('z_fix', ''), g('z_i'), "" if p.get('pure') else "B", g('z_t', 'nb')]
     if p.get('final_nl', 1):
         tpl += ["\n"]
     for _ in range(int(p.get('parent', 0))):
@@ -1153,6 +1159,12 @@ def c13_jobs(tier, seed):
         J(f'nested ready block b={b} a={a}', a=a, b=b, inner=1, holes=dict(tag_i=1, in_i=2, cin_i=1))
         J(f'pending parent b={b} a={a}', a=a, b=b, parent=1, holes=dict(tag_i=2, a_i=2, z_i=1))
         J(f'no final newline b={b} a={a}', a=a, b=b, final_nl=0, holes=dict(z_t=2, z_i=1, al0=1 if a else 0))
+    for n in (8, 12, 16):   # neighbour lines that are a long run of blanks and a single character (word-at-a-time scans)
+        for a, b in [(0, 0), (1, 0), (0, 1)]:
+            J(f'neighbour lines are {n} blanks and one character, b={b} a={a}', a=a, b=b, a_fix=' ' * n, z_fix=' ' * n, holes=dict(a_i=1, tag_i=2))
+            J(f'neighbour lines are {n} blanks and one character inside a pending parent, b={b} a={a}', a=a, b=b, parent=1, a_fix=' ' * n, z_fix=' ' * n, holes=dict(tag_i=2, c_i=1))
+    for a, b in [(0, 0), (1, 1)]:   # three free bytes in front of the block (characters whose case mapping changes their length, among others)
+        J(f'three free bytes on the line above, b={b} a={a}', a=a, b=b, holes=dict(a_t=3, tag_i=1))
     for a, b in [(0, 0), (1, 1)]:   # parents marked skip / ready-but-skipped; a time-limited block exactly at / one second before its deadline at +09:00 and -03:30
         J(f'skip parent b={b} a={a}', a=a, b=b, parent=1, parent_attrs=SK, holes=dict(tag_i=2, a_i=1))
         J(f'two skip parents b={b} a={a}', a=a, b=b, parent=2, parent_attrs="to='2001-01-01 00:00:00' skip name='n'", holes=dict(tag_i=1, z_i=1))
